@@ -221,8 +221,8 @@ def run(ctx):
     ctx.write_generated("C33", lean_constants(A))
     ctx.build()
     rng = ctx.rng
-    n_random = 30000 if ctx.thorough else 3000
-    n_bad = 20000 if ctx.thorough else 3000
+    n_random = 120000 if ctx.thorough else 3000
+    n_bad = 80000 if ctx.thorough else 3000
 
     spec_consts = {"size": A.FLAG_SIZE, "uidgid": A.FLAG_UIDGID, "perm": A.FLAG_PERMISSIONS,
                    "amtime": A.FLAG_AMTIME, "ext": A.FLAG_EXTENDED}
@@ -357,7 +357,7 @@ def run(ctx):
     # ---- glue: the same objects through a real SFTP session (client request -> server, server reply -> client)
     from pv import lib_sftploop as lib_sftp
 
-    n_sess = 400 if ctx.thorough else 120
+    n_sess = 1500 if ctx.thorough else 120
     if ctx.fails:  # already failing in-process: a misaligned decoder inside the server thread could loop for minutes
         n_sess = 0
     wf = [c for c in cases if c.well_formed()]
